@@ -3,7 +3,7 @@
    drives the REAL ConnectionHeartbeat.run body through, round by round).  The theorems hold in EVERY state satisfying
    the stated side conditions, hence for any number of rounds and any traffic in between. *)
 From Coq Require Import ZArith List Bool Lia.
-From Verif Require Import Conn Conn_lemmas Conn_inv C44_proofs.
+From Verif Require Import Conn Conn_lemmas Conn_inv C44_proofs Heartbeat Heartbeat_proofs.
 Import ListNotations.
 Local Open Scope Z_scope.
 
@@ -67,6 +67,24 @@ Theorem C44_at_threshold_not_sent : forall s cb, in_flight s <? max_id s = false
   let s' := step s (HbSend cb) in in_flight s' = in_flight s /\ free s' = free s /\ reqs s' = reqs s /\ log s' = EHbCap :: log s.
 Proof. intros s cb C. unfold step. rewrite C. proj. repeat split; reflexivity. Qed.
 Print Assumptions C44_at_threshold_not_sent.
+
+
+(* the wait loop gives every HeartbeatFuture of the round the SAME deadline (idle_heartbeat_timeout after the wait phase began),
+   whatever the number of futures, their order and how long the earlier ones took: a reply processed within the timeout is never
+   reported as a failure, a later or missing one always is *)
+Theorem C44_shared_deadline : forall T arrivals i a, 0 <= T -> nth_error arrivals i = Some a ->
+  nth_error (wait_phase T arrivals) i = Some (in_time T a).
+Proof. intros T arrivals i a HT E. rewrite (wait_phase_spec T arrivals HT). exact (map_nth_error _ _ _ E). Qed.
+Print Assumptions C44_shared_deadline.
+
+(* no state is carried from one round to the next: each round is judged on its own replies only *)
+Theorem C44_rounds_independent : forall T rs k r, 0 <= T -> nth_error rs k = Some r ->
+  nth_error (rounds T rs) k = Some (map (in_time T) r).
+Proof. intros T rs k r HT E. unfold rounds. rewrite (map_nth_error _ _ _ E). rewrite (wait_phase_spec T r HT). reflexivity. Qed.
+Print Assumptions C44_rounds_independent.
+
+Example C44_nonvacuous_deadline : wait_phase 100 [Some 40; Some 60; Some 90; None; Some 10; Some 101] = [true; true; true; false; true; false].
+Proof. reflexivity. Qed.
 
 Example C44_nonvacuous :
   let s := run (init 2 3 2) ([Borrow; SendCheck 0; SendReg 0 7] ++ hb_ok 1 1001 ++ [RecvBegin 0; RecvPop 0 DOk; ReturnConn; RecvEnd; HbSkipBusy]
